@@ -53,7 +53,10 @@ def run(ctx):
         c = cases[ci]
         obs = []
         for k in (0, 2):
-            if "ok" in rs[k]:
+            if "ok" in rs[k] and "ok" not in rs[k + 1]:
+                ctx.violation("descriptor-unreadable", "the descriptor of a successfully built object could not be read: %s" % json.dumps(rs[k + 1])[:200], {"calls": j["calls"]})
+                obs.append(None)
+            elif "ok" in rs[k]:
                 d = rs[k + 1]["ok"][0]
                 obs.append((d["id"], d["dim"]))
             elif "panic" in rs[k]:
